@@ -317,7 +317,18 @@ CHECKS = {"C01": check_C01, "C02": check_C02, "C03": check_C03, "C04": check_C04
           "C11": check_C11, "C16": check_C16, "C20": check_C20}
 
 
+def _more():
+    import search_checks
+    CHECKS.update(search_checks.CHECKS)
+    try:
+        import uci_checks
+        CHECKS.update(uci_checks.CHECKS)
+    except ImportError:
+        pass
+
+
 def run(prop, tier, seed):
+    _more()
     if prop not in CHECKS:
         print("no check for %s" % prop)
         return 2
